@@ -6,7 +6,7 @@
 //!        | G,<id>,<modpath>,<raw>,<display>,<line>,<col>,<opts>,<rk>,<vals>,<generic>
 //! Strings are percent-encoded (`%XX`; the empty string is `%_`); `-` is "none".
 //! lists: `-` or elements joined by `/`.
-//! opts: - (no options) | n (options, ignore unset) | t | f
+//! opts: - (no options) | n (options, ignore unset) | t | f, then optionally `e` (threads = empty list), then optionally a sample count
 //! rk:   p (plain) or the argument container kind (one letter); vals: the argument values
 //! generic: - (None) | @ (Some(&[])) | rows joined by `/`; row := `.` (empty) | entry (';' entry)*
 //!          entry := <id>~<type or ->~<const or ->   type := <menu index>:<raw type name>   const := <kind letter><value>
@@ -32,6 +32,8 @@ pub struct Meta {
     pub line: u32,
     pub col: u32,
     pub opts: char,
+    /// `e` after the options letter: `threads: Some(&[])` (present but empty).
+    pub threads_empty: bool,
 }
 
 #[derive(Clone, Debug)]
@@ -144,6 +146,7 @@ fn meta(f: &[&str]) -> Meta {
         line: f[5].parse().expect("line"),
         col: f[6].parse().expect("col"),
         opts: f[7].chars().next().unwrap(),
+        threads_empty: f[7].chars().nth(1) == Some('e'),
     }
 }
 
@@ -207,7 +210,7 @@ pub fn parse(line: &str) -> Spec {
             }
             "X" => exe = Some(dec(f[1])),
             // the abstract program is for the model only
-            "P" | "F" | "M" | "N" | "E" => {}
+            "P" | "F" | "M" | "N" | "E" | "O" => {}
             other => panic!("bad item {other}"),
         }
     }
